@@ -7,6 +7,7 @@ the repairs fixes/C06-* and fixes/C08-*); helper lemmas: `FlexModel/Geo/RouterLe
 CBF timeout are arbitrary (`env : Env` is universally quantified everywhere).
 -/
 import FlexModel.Geo.RouterLemmas
+import FlexModel.Geo.NetLemmas
 
 namespace Props.C06
 open FlexModel.Geo
@@ -227,5 +228,39 @@ theorem chain_length_bounded : ∀ (l : List Pkt) (p : Pkt), Chain (p :: l) → 
       have := i2 x (by simpa using hx)
       simp only [List.length_cons] at this ⊢
       omega
+
+/-! ## Flood termination in a network of stations (any number, any topology, any schedule) -/
+
+/-- one reception puts at most ONE frame on the medium (RHL one lower) or ONE copy into the CBF buffer, never both -/
+theorem one_reception_one_copy (c : RCfg) (hg : c.gacFix = true) (s : RSt) (p : Pkt) (env : Env) (now : Nat) :
+    (sends (recvR c s p env now).2 = [] ∨ ∃ q, sends (recvR c s p env now).2 = [q] ∧ q.rhl + 1 = p.rhl) := by
+  rcases recvR_effect c hg s p env now with ⟨h, _⟩ | ⟨q, h, hr, _⟩
+  · exact Or.inl h
+  · exact Or.inr ⟨q, h, hr⟩
+
+/-- every effective operation of the medium (delivery of a frame in flight to the station it is addressed to, loss, CBF timer
+expiry) strictly decreases the measure `Σ_air A^(2·rhl) + Σ_buffers A^(2·rhl+1)`, `A = F + 2`, as long as a transmission is
+heard by at most `F` stations - for every network, every state, every opaque input -/
+theorem flood_step_decreases (F : Nat) (n : Net) (op : NetOp) (hg : ∀ nd ∈ n.nodes, nd.c.gacFix = true)
+    (hf : fanout op ≤ F) (he : Effective n op) : (netStep n op).weight (F + 2) < n.weight (F + 2) :=
+  net_step_decreases F n op hg hf he
+
+/-- FLOOD TERMINATION: every schedule of effective operations has length at most the initial measure; in particular no
+infinite flood exists, whatever the delivery order, duplication by overlapping radio ranges (≤ F hearers), loss, and timer
+expiry points, with SIMPLE or CBF forwarding in any mix -/
+theorem flood_terminates (F : Nat) (ops : List NetOp) (n : Net) (hg : ∀ nd ∈ n.nodes, nd.c.gacFix = true)
+    (h : AllEffective F n ops) : ops.length ≤ n.weight (F + 2) := by
+  have := net_run_bound F ops n hg h
+  omega
+
+/-- non-vacuity: three stations in a row, a TSB with hop limit 3 from station 0; the schedule below is effective and ends
+with an empty medium -/
+example :
+    let mk (a : Nat) : Node := { c := { loct := { self := a, lifetimeMs := 20000, dplLen := 8 } }, s := {} }
+    let p : Pkt := { kind := .tsb, rhl := 3, mhl := 10, so := 100, soPV := { time := 1000 }, sn := 7 }
+    let n0 : Net := { nodes := [mk 100, mk 101, mk 102], air := [(1, p)] }
+    let ops := [NetOp.deliver 0 {} 1000 [0, 2], .deliver 0 {} 1001 [1], .deliver 0 {} 1002 [1], .deliver 0 {} 1003 [0, 2],
+      .deliver 0 {} 1004 [], .deliver 0 {} 1005 []]
+    (netRun n0 ops).air = [] ∧ (netRun n0 (ops.take 1)).air.length = 2 := by decide
 
 end Props.C06
